@@ -114,7 +114,7 @@ Qed.
 (* ---------------------------------------------------------------- histories *)
 Definition step_wf (s : step) : Prop :=
   match s with
-  | SProcess rs => (length rs <= 12)%nat /\ Forall (fun r => result_wf_b r = true) rs
+  | SProcess rs => Forall (fun r => result_wf_b r = true) rs
   | _ => True
   end.
 
@@ -122,7 +122,7 @@ Lemma steps_wf_forall steps : steps_wf_b steps = true -> Forall step_wf steps.
 Proof.
   unfold steps_wf_b. intro H. rewrite forallb_forall in H. apply Forall_forall. intros s Hs.
   specialize (H s Hs). destruct s; cbn; auto. apply andb_prop in H. destruct H as [H1 H2].
-  split; [apply Nat.leb_le; exact H1|]. apply Forall_forall. rewrite forallb_forall in H2. exact H2.
+  apply Forall_forall. rewrite forallb_forall in H2. exact H2.
 Qed.
 
 Lemma history_ok_nil imp steps : history_ok_b imp steps [] = true.
@@ -163,7 +163,7 @@ Proof.
       destruct (IH _ _ I' Wr) as (outs & stf & E & L & H). rewrite E.
       exists (None :: outs), stf. split; [reflexivity|]. split; [cbn [length]; now rewrite L|].
       cbn [observe]. rewrite history_ok_skip by exact Logic.I. exact H.
-    + destruct Ws as [_ Wrs].
+    + pose proof Ws as Wrs. cbn [step_wf] in Wrs.
       destruct (process_fixed_ok bad st rs imported I Wrs) as (r & imp' & EP & ER & EO & I').
       rewrite EP. destruct (IH _ _ I' Wr) as (outs & stf & E & L & H). rewrite E.
       exists (Some r :: outs), stf. split; [reflexivity|]. split; [cbn [length]; now rewrite L|].
